@@ -324,7 +324,8 @@ def run(ctx):
 # (rows, in_features, out_features): every kernel-selection threshold (rows > 16, multiples of 8, in_features 1 / % 4 / % 16),
 # square outputs (a scale applied along the wrong side is invisible otherwise) and the suite's own sizes
 TRIPLES = [(1, 1, 1), (1, 1, 3), (3, 1, 2), (2, 2, 2), (5, 3, 5), (3, 4, 3), (4, 8, 4), (8, 8, 8), (8, 12, 8), (16, 16, 16), (17, 16, 17), (17, 24, 8),
-           (24, 8, 24), (24, 16, 8), (24, 24, 24), (32, 32, 32), (32, 48, 16), (40, 64, 8), (9, 20, 9), (16, 33, 4), (64, 16, 64), (5, 160, 3)]
+           (24, 8, 24), (24, 16, 8), (24, 24, 24), (32, 32, 32), (32, 48, 16), (40, 64, 8), (9, 20, 9), (16, 33, 4), (64, 16, 64), (5, 160, 3),
+           (1, 3, 2), (1, 16, 16), (1, 32, 8), (1, 160, 3)]  # a single token: its row stride is arbitrary in a transposed / sliced batch
 
 
 def run_grid(ctx):
@@ -346,13 +347,19 @@ def run_grid(ctx):
                                     cs.append({"dtype": dt, "act": act, "wq": wq, "rows": r, "brank": 1 + (k % 2), "inf": k, "outf": n, "bias": True, "mode": "exact",
                                                "entry": "linear", "layout": "contig", "ascale": "absmax", "group": 0, "per_tensor_w": False, "act_axis": ax,
                                                "seed": ctx.seed * 1000 + r + 7 * k + 13 * n + 1})
+                            if entry == "linear" and wq not in ("qint4", "qint2"):
+                                # the kernels behind 8-bit weights read the activations' strides: every size triple in every layout
+                                # (a one-row batch transposed has a size-1 dim with a non-canonical stride and still "is contiguous")
+                                for lay in ("transposed", "sliced"):
+                                    cs.append({"dtype": dt, "act": act, "wq": wq, "rows": r, "brank": 1 + (n % 2), "inf": k, "outf": n, "bias": (r + n) % 2 == 0, "mode": "exact",
+                                               "entry": "linear", "layout": lay, "ascale": "absmax", "group": 0, "per_tensor_w": ptw, "seed": ctx.seed * 1000 + r + 7 * k + 13 * n + 2})
                             cs.append({"dtype": dt, "act": act, "wq": wq, "rows": r, "brank": 1 if entry != "linear" else 1 + (r % 2), "inf": k, "outf": n,
                                        "bias": (r + k) % 2 == 0, "mode": "exact", "entry": entry, "layout": "expanded" if (entry == "linear" and (r + k + n) % 5 == 0) else "contig", "ascale": "absmax", "group": 0,
                                        "per_tensor_w": ptw, "seed": ctx.seed * 1000 + r + 7 * k + 13 * n})
     from vlib.core import enumerate_cases
 
     enumerate_cases(ctx, cs[ctx.shard :: ctx.nshards], exec_case,
-                    exhaustive_name="dtype x activation kind x weight qtype x 22 threshold size triples x {linear, mm, bmm} x {per-axis, per-tensor} weights, exact mode")
+                    exhaustive_name="dtype x activation kind x weight qtype x 26 threshold size triples x {linear, mm, bmm} x {per-axis, per-tensor} weights, exact mode")
     ctx.extra["routes_taken"] = dict(ROUTES)
 
 
